@@ -288,6 +288,33 @@ class Outer3(nnx.Module):
         return self.g(self.a(x) + self.b(x))
 
 
+# ---- nested free functions in several custom namespaces (function bodies with >= 2 foreign domains, 3 levels)
+
+
+@onnx_function(namespace="zeta.ops")
+def leaf_z(x):
+    return jnp.sin(x) * 2.0
+
+
+@onnx_function(namespace="alpha.ops")
+def leaf_a(x):
+    return jnp.cos(x) + 1.0
+
+
+@onnx_function(namespace="mid.ops", unique=True)
+def mid_fn(x):
+    return leaf_z(x) * leaf_a(x) + leaf_z(x + 1.0)
+
+
+@onnx_function(namespace="beta.top")
+def top_fn(x, y):
+    return mid_fn(x) + leaf_a(y) - mid_fn(y)
+
+
+def fn_nested_ns(x, y):
+    return top_fn(x, y) + leaf_z(x)
+
+
 def fail_user(x):
     raise ValueError("deliberate failure inside the user function")
 
@@ -347,6 +374,7 @@ def catalogue() -> dict:
         "fn_unique": _req(_model("twounique", TwoUnique), [(2, 4)]),
         "fn_const": _req(fn_const, [(3,)]),
         "fn_nested3": _req(_model("outer3", Outer3), [(2, 4)]),
+        "fn_nested_ns": _req(fn_nested_ns, [(3,), (3,)]),
         "fn_sblock_ok": _freq(lambda: _sblock_model(False), [("B", 4)]),
         "fn_inbuild_ok": _freq(lambda: _inbuild_model(False), [(3,)]),
         "call_params1": _req(call_params1, [(3,)], input_params={"deterministic": True}),
@@ -390,6 +418,233 @@ def state_snapshot() -> dict:
             "onnx_fn_hits": sorted(ps._ONNX_FN_HITS.get()),
             "patch_state": len(ps._PATCH_STATE),
             "x64": bool(jax.config.jax_enable_x64)}
+
+
+# ----------------------------------------------------------------------------- state inventory
+#
+# ALL module-level / class-level mutable state of jax2onnx, discovered by type at run time (no list
+# of names): containers, caches, counters, scalars that are rebound, and every ContextVar.
+
+
+def _canon(v, depth: int = 0):
+    """process-local canonical rendering (only ever compared inside ONE process)"""
+    if isinstance(v, (str, int, float, bool, bytes, type(None))):
+        return repr(v)
+    if depth < 2 and isinstance(v, (set, frozenset)):
+        return "{" + ",".join(sorted(_canon(x, depth + 1) for x in v)) + "}"
+    if depth < 2 and isinstance(v, (tuple, list)):
+        return "[" + ",".join(_canon(x, depth + 1) for x in v) + "]"
+    return f"<{type(v).__name__}@{id(v)}>"
+
+
+def _fingerprint(v):
+    """(object kind, content fingerprint) of a piece of state, or None when `v` is not state"""
+    import collections
+    import contextvars
+    import itertools
+    import weakref
+    try:
+        if isinstance(v, contextvars.ContextVar):
+            try:
+                return "ctxvar", _canon(v.get())
+            except LookupError:
+                return "ctxvar", "<unset>"
+        if isinstance(v, weakref.WeakValueDictionary) or isinstance(v, weakref.WeakKeyDictionary):
+            return "weakmap", str(len(v))
+        if isinstance(v, weakref.WeakSet):
+            return "weakset", str(len(v))
+        if isinstance(v, (dict, collections.abc.MutableMapping)):
+            items = list(v.items())
+            return "map", f"{len(items)}:" + hashlib.sha1(
+                "|".join(sorted(_canon(k) + "=" + _canon(x, 1) for k, x in items)).encode()).hexdigest()[:12]
+        if isinstance(v, (set, collections.abc.MutableSet)):
+            return "set", f"{len(v)}:" + hashlib.sha1("|".join(sorted(_canon(x) for x in v)).encode()).hexdigest()[:12]
+        if isinstance(v, (list, collections.deque)):
+            return "list", f"{len(v)}:" + hashlib.sha1("|".join(_canon(x) for x in v).encode()).hexdigest()[:12]
+        if hasattr(v, "cache_info") and callable(getattr(v, "cache_info", None)):
+            return "lru", str(v.cache_info().currsize)
+        if isinstance(v, itertools.count):
+            return "counter", repr(v)
+        if isinstance(v, (bool, int, float, str, type(None))):
+            return "scalar", repr(v)
+    except Exception:  # noqa: BLE001 - an object that cannot be rendered is not tracked
+        return None
+    return None
+
+
+def state_inventory() -> dict:
+    """qualified name -> (kind, fingerprint) for every piece of module/class-level state of jax2onnx."""
+    out: dict = {}
+    seen: dict = {}
+    for mname in sorted(sys.modules):
+        mod = sys.modules[mname]
+        if mod is None or not (mname == "jax2onnx" or mname.startswith("jax2onnx.")):
+            continue
+        for k, v in sorted(vars(mod).items()):
+            if k.startswith("__"):
+                continue
+            if isinstance(v, type) and getattr(v, "__module__", "") == mname:
+                for ck, cv in sorted(vars(v).items()):
+                    if ck.startswith("__") or isinstance(cv, (staticmethod, classmethod, property)):
+                        continue
+                    fp = _fingerprint(cv)
+                    if fp is not None and not (fp[0] == "scalar" and ck.isupper()):
+                        out[f"{mname}:{k}.{ck}"] = fp
+                continue
+            fp = _fingerprint(v)
+            if fp is None:
+                continue
+            if fp[0] != "scalar":
+                if id(v) in seen:          # the same object imported into several modules: first name wins
+                    continue
+                seen[id(v)] = f"{mname}:{k}"
+            out[f"{mname}:{k}"] = fp
+    import jax as _jax
+    out["jax.config:jax_enable_x64"] = ("scalar", repr(bool(_jax.config.jax_enable_x64)))
+    return out
+
+
+def inventory_diff(a: dict, b: dict) -> dict:
+    """name -> [kind, before, after] for state that differs (appearing / vanishing names included)"""
+    d = {}
+    for k in sorted(set(a) | set(b)):
+        x, y = a.get(k), b.get(k)
+        if x != y:
+            d[k] = [(y or x)[0], None if x is None else x[1], None if y is None else y[1]]
+    return d
+
+
+PROBE_GOOD = ("ew", "fn_shared", "fn_class", "fn_nested3", "fn_nested_ns", "fn_const", "call_params2", "dropout",
+              "t_dag_mul_add", "scan", "fn_sblock_ok", "fn_inbuild_ok")
+
+
+def probe_state() -> dict:
+    """Fixed protocol (no seed): two identical rounds of succeeding and failing conversions.  A piece of
+    state is reported with the rounds in which some conversion changed it: `r1` (first time a request is
+    seen: lazy caches, registries, memo tables fill), `r2` (the same requests again: anything that still
+    changes accumulates history), `fail` (changed by a FAILING conversion in round 2), and `net` (value
+    at the end of round 2 differs from the value at the end of round 1)."""
+    rows: dict = {}
+    order = list(PROBE_GOOD) + list(FAILING)
+    end1 = None
+    unexpected: list = []
+    start = {n: fp for n, fp in state_inventory().items() if fp[0] == "ctxvar"}
+    for rnd in ("r1", "r2"):
+        for rid in order:
+            before = state_inventory()
+            try:
+                convert(rid)
+                ok = True
+            except BaseException as e:  # noqa: BLE001
+                if isinstance(e, (KeyboardInterrupt, SystemExit)):
+                    raise
+                ok = False
+            if ok == (rid in FAILING):
+                unexpected.append(f"{rnd}:{rid}:{'converted' if ok else 'failed'}")
+            after = state_inventory()
+            if ok:
+                for name, fp in start.items():
+                    if after.get(name) != fp:
+                        rows.setdefault(name, {"kind": "ctxvar", "flags": set()})["flags"].add("dirty")
+            for name, (kind, _x, _y) in inventory_diff(before, after).items():
+                if _x is None:               # a module imported lazily by this conversion: no state CHANGED
+                    continue
+                r = rows.setdefault(name, {"kind": kind, "flags": set()})
+                r["flags"].add(rnd)
+                if rnd == "r2" and not ok:
+                    r["flags"].add("fail")
+        if rnd == "r1":
+            end1 = state_inventory()
+    for name, (_k, _x, _y) in inventory_diff(end1, state_inventory()).items():
+        if _x is None:
+            continue
+        rows.setdefault(name, {"kind": "?", "flags": set()})["flags"].add("net")
+    inv = state_inventory()
+    kinds: dict = {}
+    for _n, (k, _f) in inv.items():
+        kinds[k] = kinds.get(k, 0) + 1
+    return {"rows": [{"name": n, "kind": r["kind"], "flags": "+".join(sorted(r["flags"]))}
+                     for n, r in sorted(rows.items())],
+            "inventory_size": len(inv), "inventory_kinds": kinds, "unexpected_outcomes": unexpected,
+            "ctxvars": sorted(n for n, (k, _f) in inv.items() if k == "ctxvar")}
+
+
+# ----------------------------------------------------------------------------- failure injection
+
+
+class InjectedFailure(ArithmeticError):
+    """raised by the harness at a chosen point inside a real conversion"""
+
+
+def convert_injected(rid: str, point: str, k: int) -> dict:
+    """Run request `rid` with a failure injected at the k-th (1-based) occurrence of `point`:
+         'trace'  the k-th `jax.make_jaxpr` trace of the conversion (1 = the user function, >= 2 = the
+                  re-trace of an @onnx_function body at lowering time, nested bodies in call order)
+         'name'   the k-th fresh-name allocation (IRBuilder.fresh_name / IRContext.fresh_name), i.e. a
+                  point inside lowering, inside and outside function bodies
+       Returns {"raised": bool, "count": occurrences seen, "error": type name | None, "depths": [...]}
+       (`depths` = the number of names in every ContextVar-held set at each occurrence: nesting)."""
+    import contextvars
+    import jax as _jax
+    from jax2onnx.converter import ir_builder as _irb
+    from jax2onnx.converter import ir_context as _irc
+    seen = {"n": 0}
+    depths: list = []
+    cvs = [v for m in list(sys.modules) if m.startswith("jax2onnx") and sys.modules[m] is not None
+           for v in vars(sys.modules[m]).values() if isinstance(v, contextvars.ContextVar)]
+
+    def depth() -> int:
+        d = 0
+        for cv in {id(c): c for c in cvs}.values():
+            try:
+                val = cv.get()
+            except LookupError:
+                continue
+            if isinstance(val, (set, frozenset)) and all(isinstance(x, str) and "onnx_fn" in x for x in val):
+                d = max(d, len(val))
+        return d
+
+    def tick():
+        seen["n"] += 1
+        depths.append(depth())
+        if seen["n"] == k:
+            raise InjectedFailure(f"injected at {point} #{k}")
+
+    undo = []
+    if point == "trace":
+        orig = _jax.make_jaxpr
+
+        def make_jaxpr(fun, *a, **kw):
+            inner = orig(fun, *a, **kw)
+
+            def run(*args, **kwargs):
+                tick()
+                return inner(*args, **kwargs)
+            return run
+        _jax.make_jaxpr = make_jaxpr
+        undo.append(lambda: setattr(_jax, "make_jaxpr", orig))
+    else:
+        for cls, attr in ((_irb.IRBuilder, "fresh_name"), (_irc.IRContext, "fresh_name")):
+            o = getattr(cls, attr)
+
+            def wrapped(self, *a, __o=o, **kw):
+                tick()
+                return __o(self, *a, **kw)
+            setattr(cls, attr, wrapped)
+            undo.append(lambda cls=cls, attr=attr, o=o: setattr(cls, attr, o))
+    res = {"raised": False, "error": None}
+    try:
+        convert(rid)
+    except BaseException as e:  # noqa: BLE001
+        if isinstance(e, (KeyboardInterrupt, SystemExit)):
+            raise
+        res = {"raised": True, "error": type(e).__name__}
+    finally:
+        for u in undo:
+            u()
+    res["count"] = seen["n"]
+    res["depths"] = depths
+    return res
 
 
 def _erase_shapes(proto) -> None:
@@ -520,5 +775,8 @@ def run_history(spec: dict) -> list:
 
 if __name__ == "__main__":
     spec = json.loads(sys.argv[1])
+    if spec.get("probe"):
+        print("RESULT " + json.dumps(probe_state()))
+        sys.exit(0)
     res = run_history(spec)
     print("RESULT " + json.dumps({"results": res, "hashseed": os.environ.get("PYTHONHASHSEED")}))
